@@ -236,6 +236,12 @@ func (s *sackDriver) handleProbeLayers(parser *packets.FrameParser) (*common.Pro
 			return nil, &common.BadPacketError{Err: fmt.Errorf("sackDriver failed to get ICMP info: %w", err)}
 		}
 
+		// the quoted packet must be a TCP segment: a UDP datagram with the same port numbers is
+		// another flow
+		if icmpInfo.WrappedProtocol != layers.IPProtocolTCP {
+			return nil, errPacketDidNotMatchTraceroute
+		}
+
 		tcpInfo, err := packets.ParseTCPFirstBytes(icmpInfo.Payload)
 		if err != nil {
 			return nil, &common.BadPacketError{Err: fmt.Errorf("sackDriver failed to parse TCP info: %w", err)}
